@@ -13,9 +13,17 @@
    document as YAML or JSON loads identically" are statements about sigs.k8s.io/yaml,
    go-openapi and the Go converters on raw bytes; no Gallina model expresses them.  They are
    part of C10_Spec.P and are checked on the implementation by the differential / fault /
-   raw-byte streams only. *)
+   raw-byte streams only.
+
+   SEVERAL loads in one process (C10_Session: the package-level SchemasCache threaded through
+   the loads of a session, the cached schema used for validation as in LoadAndValidate): the
+   loader is a function of the document - C10_history_independent, C10_any_earlier_history,
+   C10_loaded_again_same, and the Spec's session predicate (every load meets P, in-session =
+   alone, one document one outcome) holds of the model: C10_session_contract.  On the
+   implementation the session streams load every document in the session and alone in a fresh
+   process. *)
 From Coq Require Import String.
-From Verif Require Import Common Json C10_Model C10_Spec C10_Proofs.
+From Verif Require Import Common Json C10_Model C10_Spec C10_Proofs C10_Session C10_SessionProofs.
 
 (* every parsed document is either rejected or loaded (trivial in Gallina, stated for the record) *)
 Theorem C10_total : forall co lo du wo doc,
@@ -117,3 +125,41 @@ Proof.
   - exists c. split; [reflexivity|]. now destruct H1 as [H1 _].
   - exists c0. split; [reflexivity|]. now destruct H4 as [H4 _].
 Qed.
+
+(* ---- several loads in one process ---- *)
+
+(* history independence: the k-th load of a session (one process, the schema cache shared) returns
+   exactly - verdict and effective configuration - what the k-th document returns loaded alone *)
+Theorem C10_history_independent : forall co lo du wo docs k d,
+  nth_error docs k = Some d -> nth_error (session co lo du wo docs) k = Some (load co lo du wo d).
+Proof. exact history_independence. Qed.
+Print Assumptions C10_history_independent.
+
+(* ... whatever the process loaded before the session began *)
+Theorem C10_any_earlier_history : forall co lo du wo earlier docs,
+  session_from co lo du wo (state_after co lo du wo [] earlier) docs = map (load co lo du wo) docs.
+Proof. exact session_after_any_history. Qed.
+Print Assumptions C10_any_earlier_history.
+
+(* a hook loaded again gets what it got the first time *)
+Theorem C10_loaded_again_same : forall co lo du wo pre d mid post,
+  nth_error (session co lo du wo (pre ++ d :: mid ++ d :: post)) (length pre)
+  = nth_error (session co lo du wo (pre ++ d :: mid ++ d :: post)) (length pre + S (length mid)).
+Proof. exact loaded_again_same. Qed.
+Print Assumptions C10_loaded_again_same.
+
+(* the Spec's session predicate - every load meets P, each in-session load equals the load alone,
+   one document has one outcome - holds of the model's session, for every list of documents *)
+Theorem C10_session_contract : forall co lo du wo docs,
+  P_session (model_session co lo du wo docs) = true.
+Proof. exact session_contract. Qed.
+Print Assumptions C10_session_contract.
+
+(* non-vacuity: a session of five loads (v1, legacy, the v1 document again, an unsupported version,
+   the legacy document again): the third and fifth loads hit the cache that the first two filled *)
+Example C10_session_hyp_met :
+  map (fun r => match r with Loaded _ => true | Rejected => false end)
+      (session all_ok_cron all_ok_sel dur_3s all_ok_sel example_session) = [true; true; true; false; true]
+  /\ map fst (state_after all_ok_cron all_ok_sel dur_3s all_ok_sel [] example_session) = [VerV0; VerV1]
+  /\ nth_error example_session 2 = Some doc_group.
+Proof. exact example_session_runs. Qed.
